@@ -303,7 +303,8 @@ def run_case(case, ctx):
         tol = 256 * EPS * fmag_ / h_def
         ctx.count('affine_default_step_asserted_at_rounding_level')
     elif case['family'] == 'affine':
-        tol = 1e-6 * amax * (1 + float(np.max(np.abs(x))) + float(np.max(np.abs(b))) / amax)
+        # (the size of f itself: |A x| + |b| + the shift parameter handed to f, which is part of every value that is differenced)
+        tol = 1e-6 * amax * (1 + float(np.max(np.abs(x))) + (float(np.max(np.abs(b))) + abs(shift_kw)) / amax)
     else:
         tol = {'forward': 1e-4, 'central': 1e-6, 'complex': 1e-9}[method] * amax
     if case['step'] is None and case['family'] != 'affine':
